@@ -48,3 +48,8 @@ pub fn sym_b() -> String { String::new() }
 #[derive(TS)] pub struct PF2<T> { #[ts(flatten)] pub e: En2<T>, #[ts(flatten)] pub s: Inner<T> }
 #[derive(TS)] pub struct PF3<T> { pub id: bool, #[ts(flatten)] pub s: Inner<T>, #[ts(flatten)] pub e: En1<T> }
 #[derive(TS)] pub struct PF4<T> { #[ts(inline)] pub e: En1<T>, #[ts(inline)] pub s: Inner<T>, pub n: En2<T> }
+#[derive(TS)] #[ts(concrete(D = i32))] pub struct G16<T, D = i32> { pub a: T, pub b: D }
+#[derive(TS)] #[ts(concrete(D = i32))] pub struct G17<D = i32> { pub b: D }
+#[derive(TS)] #[ts(tag = "type")] pub struct Tg1<T> { pub v: T }
+#[derive(TS)] pub struct PF5<T> { pub id: bool, #[ts(flatten)] pub m: Tg1<T> }
+#[derive(TS)] pub struct PF6<T> { #[ts(flatten)] pub m: Tg1<T> }
